@@ -305,8 +305,10 @@ void xer_variant(const Bytes &x, Rng &rng, Bytes &out, XerVariantStats &vs) {
     out.clear();
     unsigned p_ws = (unsigned)rng.below(10), p_cm = (unsigned)rng.below(5), p_et = (unsigned)rng.below(8), p_cr = (unsigned)rng.below(6);
     size_t n = x.size();
+    bool in_text = false;        // between a '>' and the next '<'
     for(size_t i = 0; i < n; i++) {
         uint8_t c = x[i];
+        if(c == '<') in_text = false; else if(c == '>') in_text = true;
         if(c == '<' && i + 1 < n && x[i + 1] != '/' && x[i + 1] != '!') {
             // <tag></tag>  ->  <tag/>
             size_t j = i + 1; while(j < n && x[j] != '>' && x[j] != '/') j++;
@@ -326,8 +328,6 @@ void xer_variant(const Bytes &x, Rng &rng, Bytes &out, XerVariantStats &vs) {
             if(rng.below(16) < p_cm) { static const char *cm[] = {"<!-- c -->", "<!---->", "<!-- <x> & -->"}; const char *w = cm[rng.below(3)]; out.insert(out.end(), w, w + strlen(w)); vs.comments++; }
         } else if(c != '>' && c != '<' && c != '&' && c != ';' && c >= 0x20 && c < 0x7f && i > 0 && i + 1 < n) {
             // inside text: a character may travel as a character reference
-            bool in_text = false;
-            for(size_t b = i; b-- > 0;) { if(x[b] == '>') { in_text = true; break; } if(x[b] == '<') break; }
             if(in_text && rng.below(64) < p_cr) { char buf[16]; int m = snprintf(buf, sizeof buf, rng.chance(1, 2) ? "&#x%x;" : "&#%u;", (unsigned)c); out.pop_back(); out.insert(out.end(), buf, buf + m); vs.charrefs++; }
         }
     }
